@@ -199,4 +199,10 @@ example (s : St ℚ) (h : run (k0 2) (new 10) exOps = some s) :
     · rfl
     · exact absurd (this.1 hh) (by simp)
 
+/-- the same history evaluated: the read compresses everything into one centroid (`K0`, `δ = 2`) -/
+example : run (k0 (2 : ℚ)) (new 10) exOps = some ⟨[⟨5, 3⟩], 3, some 1, some 3, [⟨6, 3⟩], 10⟩ := by
+  norm_num [exOps, run, step, insertWeighted, new, minOpt, maxOpt]
+  norm_num [merge, List.mergeSort, List.MergeSort.Internal.splitInTwo,
+    List.merge, mergeLoop, k0, Centroid.fuse, Centroid.mean, totalCount]
+
 end Pds.Props.C16
